@@ -240,7 +240,8 @@ def handle (j : Json) : Except String Json := do
   let op ← (← fld j "op").getStr?
   match op with
   | "send" =>
-    let c : SendCfg := ⟨← jNat (← fld j "B"), ← jNat (← fld j "term"), ← jNat (← fld j "commit"), ← jOptNat (fldD j "drop")⟩
+    let c : SendCfg := ⟨← jNat (← fld j "B"), ← jNat (← fld j "term"), ← jNat (← fld j "commit"), ← jOptNat (fldD j "drop"),
+      ← jOptNat (fldD j "match")⟩
     let log ← jEntries (← fld j "log")
     let snap ← jOptBools (← fld j "snap")
     match sendOne c log (← jNat (← fld j "next")) snap (← jOptNat (fldD j "budget")) with
